@@ -223,6 +223,18 @@ def load_profile_flags(which, sites, tmp, k=None):
         with open(p, "w") as fh:
             json.dump({"stages": st}, fh)
         return p, [i != k for i in range(len(sites))]
+    if which == "disabled-set":
+        # every entry of the all-stages profile, an arbitrary SET of them switched off (k = sorted list of positions):
+        # a user-written -P profile; each requested stage still gets the flag of its own entry
+        off = set(k)
+        st = copy.deepcopy(ev)
+        for i in off:
+            if i < len(st):
+                st[i][list(st[i])[0]] = False
+        p = os.path.join(tmp, "disabled_set_" + "_".join(map(str, sorted(off)))[:120] + ".json")
+        with open(p, "w") as fh:
+            json.dump({"stages": st}, fh)
+        return p, [i not in off for i in range(len(sites))]
     raise ValueError(which)
 
 
@@ -292,6 +304,10 @@ def run(ctx: Ctx):
             nk = len(sites) if sites else 57
             ks = list(range(nk)) if (not ctx.quick() and it % 25 == 0) else rng.sample(range(nk), 3)
             profs += [("disabled", k) for k in ks]
+            # a contiguous range and a random subset switched off (consecutive disabled entries, repeated names)
+            a = rng.randrange(nk)
+            profs.append(("disabled-set", list(range(a, min(nk, a + rng.randint(2, 8))))))
+            profs.append(("disabled-set", sorted(rng.sample(range(nk), rng.randint(2, 12)))))
             for which, k in profs:
                 case = {"kind": "e2e", "argv": argv, "profile": which, "k": k}
                 if sites is None:
@@ -324,7 +340,7 @@ def run(ctx: Ctx):
                 total_cond = sum(1 for s in sites if s["cond"])
                 ctx.count("e2e_registrations", len(rec))
                 ctx.count(f"e2e_profile_{which}")
-                ctx.case_done(case, key=(tuple(argv), which, k), nontrivial=0 < reached_cond < total_cond)
+                ctx.case_done(case, key=(tuple(argv), which, tuple(k) if isinstance(k, list) else k), nontrivial=0 < reached_cond < total_cond)
     finally:
         shutil.rmtree(tmp, ignore_errors=True)
     if ctx.search_mode or not ctx.driver or not ctx.driver.ok:
